@@ -71,7 +71,7 @@ pub fn dump_fn<'tcx>(tcx: TyCtxt<'tcx>, did: DefId, n_bb: &mut usize) -> Option<
                 ups.push(J::obj(vec![
                     ("ty", J::S(ty_str(inner))),
                     ("by", J::s(by)),
-                    ("freeze", J::B(inner.is_freeze(tcx, env))),
+                    ("freeze", J::B(deep_freeze(tcx, env, inner, 0))),
                 ]));
             }
             f.push(("upvars", J::A(ups)));
@@ -531,6 +531,42 @@ impl<'a, 'tcx> Cx<'a, 'tcx> {
                 ("tgts", J::A(targets.iter().map(|b| bbj(*b)).collect())),
             ]),
             TerminatorKind::Yield { .. } | TerminatorKind::CoroutineDrop => J::obj(vec![("k", J::s("coroutine"))]),
+        }
+    }
+}
+
+/// No interior mutability reachable by value or through shared references.  `Copy` implies the
+/// absence of `UnsafeCell` (which is not `Copy`), which settles generic parameters bounded by `Copy`.
+fn deep_freeze<'tcx>(tcx: TyCtxt<'tcx>, env: ty::TypingEnv<'tcx>, t: ty::Ty<'tcx>, depth: usize) -> bool {
+    if depth > 6 {
+        return false;
+    }
+    match t.kind() {
+        ty::Ref(_, inner, _) | ty::RawPtr(inner, _) => deep_freeze(tcx, env, *inner, depth + 1),
+        ty::Slice(e) | ty::Array(e, _) => deep_freeze(tcx, env, *e, depth + 1),
+        ty::Tuple(ts) => ts.iter().all(|x| deep_freeze(tcx, env, x, depth + 1)),
+        _ => {
+            if tcx.type_is_copy_modulo_regions(env, t) {
+                return true;
+            }
+            if !t.is_freeze(tcx, env) {
+                return false;
+            }
+            // Freeze by value; look through ADT fields for references to non-freeze data
+            if let ty::Adt(def, args) = t.kind() {
+                if def.is_union() {
+                    return false;
+                }
+                for v in def.variants() {
+                    for f in v.fields.iter() {
+                        let ft = f.ty(tcx, *args);
+                        if matches!(ft.kind(), ty::Ref(..) | ty::RawPtr(..)) && !deep_freeze(tcx, env, ft, depth + 1) {
+                            return false;
+                        }
+                    }
+                }
+            }
+            true
         }
     }
 }
